@@ -1,0 +1,10 @@
+//go:build !verif
+
+package rpc
+
+// Verification hooks (build tag "verif"). With the tag off these are empty and inlined away.
+
+func verifTrace(point, key string) {}
+func verifYield(point, key string) {}
+
+func verifErrString(err error) string { return "" }
